@@ -78,7 +78,7 @@ def _utf8(b):
 def main(pid, argv):
     ck = V.Check(pid, argv)
     ck.rule = ("cases: services with 1-3 interfaces (names that are prefixes/suffixes of each other) x scripted dispatchers (k continues-replies, final reply, "
-               "error replies with good/refused names, standard errors, marshal failures, handler error, no reply; per-step policy) x 1-8 concurrent connections "
+               "error replies with good/refused names, standard errors, marshal failures, handler error, no reply; per-step policy) x 1-8 concurrent connections (also: two connections whose handlers wait for each other, the second one opened while the first handler runs) "
                "each sending 1-12 calls (plain/more/oneway/upgrade; registered, unknown interface, no dot, org.varlink.service methods) in generated segmentations "
                "(one write, byte-by-byte, random cuts, per frame). distinct = distinct case lines; non-trivial = a case with at least one dispatched handler call")
     ck.assumptions = ["isolation of N connections: the Go scheduler samples interleavings; the theorem covers all traces of the model, in which connections share only the immutable registry",
@@ -97,6 +97,9 @@ def main(pid, argv):
     else:
         for i in range(6000 if thorough else 500):
             cases.append(gen_case(rng, big=(i % 10 == 0)))
+        # handlers of two connections that wait for each other; the second connection arrives while the first handler runs
+        for i in range(60 if thorough else 6):
+            cases.append(C.meet_case(rng))
         lines = [c[0] for c in cases]
         metas = [c[1] for c in cases]
     impl = C.run_impl(bins["h_svc"], lines)
